@@ -13,6 +13,8 @@ import vlib  # noqa: E402
 PLAN = [
     ("enc_driver", "plain", ()),
     ("enc_driver", "plain", ("CDNS_VERIF_ENC_BUFFER=12",)),
+    ("dec_driver", "plain", ()),
+    ("dec_driver", "plain", ("CDNS_VERIF_DEC_BUFFER=5",)),
 ]
 
 
